@@ -433,14 +433,14 @@ def run(tier, replay=None):
                 print(json.dumps(case, indent=1))
             return 0
         quick = tier == "quick"
-        rounds = [0] if quick else [0, 1, 2, 3]
+        rounds = [0] if quick else [0, 1, 2]
         shapes = {}
         for dim in (2, 3):
             for rd in rounds:
                 consts = {"Tier": tier, "DIM": dim, "SEED": (common.SEED * 7 + rd) % 30000,
                           "SMOD": (12 if dim == 2 else 18) if quick else 3, "REP": 1}
                 r = run_tlc_sharded("MC_Hessian", dict(constants=consts, invariants=INVS + ["Emit"]),
-                                    nshards=4 if quick else 12, timeout=3000, coverage=not quick)
+                                    nshards=4 if quick else 12, timeout=3000, coverage=(not quick and rd == 0))
                 require_model_ok(r, f"MC_Hessian dim={dim}")
                 chk.add_tlc(r, f"MC_Hessian dim={dim} round={rd}")
                 seen = set()
@@ -455,7 +455,7 @@ def run(tier, replay=None):
                         shapes[(c["shape"]["N"], c["shape"]["dim"])] = c["shape"]
                 if not cases:
                     raise common.MachineryError("MC_Hessian emitted no cases")
-                if not quick and not r.coverage.get("AddPair"):
+                if not quick and rd == 0 and not r.coverage.get("Next"):     # Next == \E k : AddPair(k)
                     raise common.MachineryError(f"coverage: action AddPair never taken ({r.coverage})")
                 for c in cases:
                     lead = c["m"] == "Hessian" and bool(c.get("shape", {}).get("N"))
